@@ -719,14 +719,24 @@ func (m *Memory) writeDb(rLocked bool) {
 				bTxs = b.Bucket([]byte(BuckTransitions))
 			}
 
-			// update machine
-			enc, err := m.encode(machRec)
-			if err != nil {
-				return err
+			// update machine (batches may land out of order: never take the id
+			// sequence back)
+			stale := false
+			if prev := bMachs.Get(machIdBt); prev != nil {
+				old := &amhist.MachineRecord{}
+				if Decode(prev, old, true) == nil && old.NextId > machRec.NextId {
+					stale = true
+				}
 			}
-			err = bMachs.Put(machIdBt, enc)
-			if err != nil {
-				return err
+			if !stale {
+				enc, err := m.encode(machRec)
+				if err != nil {
+					return err
+				}
+				err = bMachs.Put(machIdBt, enc)
+				if err != nil {
+					return err
+				}
 			}
 
 			for i, recTime := range times {
